@@ -269,6 +269,13 @@ def r4_constructor(ctx):
         if not fa.ok:
             ctx.add("R4", f.qual + "|constructor", "UNDECIDED", fa.unsupported, fn=f.qual)
             continue
+        if f.kwarg or f.vararg:
+            # scikit-learn discovers the parameters of an estimator from the SIGNATURE of __init__: *args is refused, **kwargs is skipped, so
+            # whatever travels through it is invisible to get_params() and therefore lost by clone() and absent from repr()
+            ctx.add("R4", f.qual + "|explicit-signature", "VIOLATED", "%s.__init__ takes %s: the parameters passed through it are not reported by get_params(), so clone() "
+                    "silently resets them to their defaults" % (cq.rsplit(".", 1)[1], "**" + f.kwarg if f.kwarg else "*" + f.vararg), fn=f.qual)
+        else:
+            ctx.add("R4", f.qual + "|explicit-signature", "DISCHARGED", "every constructor parameter is an explicit keyword of __init__", fn=f.qual, nontrivial=False)
         params = f.call_params + f.kwonly
         allparams = init_params(ctx, cq)
         is_cv = "sklearn.model_selection.BaseCrossValidator" in ctx.pkg.mro(cq)
@@ -540,3 +547,9 @@ def check(ctx):
     r4_constructor(ctx)
     r5_typestate(ctx)
     r6_rejection(ctx)
+    from . import c13
+    ctx.alias = {"R7": "R6"}          # "invalid regions are rejected": the check_region rule of C13.R7 is part of C20.R6
+    try:
+        c13.r7_check_region(ctx)
+    finally:
+        ctx.alias = {}
